@@ -17,6 +17,7 @@
 (*   Variable       name = index in VarTab                                 *)
 (*   PowerConstant  kids = <<a>>, num = exponent                           *)
 (*   BelongsTo      kids = <<a>>, keys = the set as a sequence of integers *)
+(*                  (divided by num when num is not zero: halves)          *)
 (*   Elem           kids = <<key, e1..en>>, keys = <<k1..kn>>              *)
 (*   ConditionalSum kids = <<c1, t1, .., cn, tn>>                          *)
 (*   bioMultSum     kids = operands                                        *)
@@ -138,7 +139,9 @@ OpVal(n, V(_)) ==
     [] n.op = "And"      -> Bool(V(1).n # 0 /\ V(2).n # 0)
     [] n.op = "Or"       -> Bool(V(1).n # 0 \/ V(2).n # 0)
     [] n.op \in Comparisons -> Bool(Cmp(n.op, V(1), V(2)))
-    [] n.op = "BelongsTo" -> Bool(QIsInt(V(1)) /\ AsInt(V(1)) \in SeqToSet(n.keys))
+    \* the set holds the numbers keys[j] / D, D = num (integers when num is left at zero): a set may hold non-integers
+    [] n.op = "BelongsTo" -> LET D == IF IsZero(n.num) THEN One ELSE n.num
+                             IN  Bool(\E k \in SeqToSet(n.keys) : QEq(V(1), QDiv(I(k), D)))
     [] n.op = "exp"      -> App("exp", <<V(1)>>)
     [] n.op = "log"      -> IF IsOne(V(1)) THEN Zero ELSE App("log", <<V(1)>>)
     [] n.op = "logzero"  -> IF IsZero(V(1)) \/ IsOne(V(1)) THEN Zero ELSE App("log", <<V(1)>>)
@@ -552,6 +555,7 @@ AddNary == CanAdd /\
     \/ "bioMultSum" \in NaryOps /\ \E a, b \in Idx : Try(Node("bioMultSum", <<a, b>>, Zero, 0, << >>))
     \/ "bioMultSum3" \in NaryOps /\ \E a, b, c \in Idx : Try(Node("bioMultSum", <<a, b, c>>, Zero, 0, << >>))
     \/ "BelongsTo" \in NaryOps /\ \E a \in Idx : AllQ(a) /\ \E ks \in KeySets : Try(Node("BelongsTo", <<a>>, Zero, 0, ks))
+    \/ "BelongsToHalf" \in NaryOps /\ \E a \in Idx : AllQ(a) /\ \E ks \in KeySets : Try(Node("BelongsTo", <<a>>, I(2), 0, ks))
     \/ "Elem" \in NaryOps /\ \E ks \in KeySets : Len(ks) = 2 /\ \E key \in Idx : IsKey(key, ks) /\
           \E a, b \in Idx : Try(Node("Elem", <<key, a, b>>, Zero, 0, ks))
     \/ "ConditionalSum" \in NaryOps /\ \E c1 \in Idx : AllQ(c1) /\ \E c2 \in Idx : AllQ(c2) /\
